@@ -13,33 +13,36 @@
     - (B, the reals) in the plane coordinates of ANY frame (o, e1, e2): the shoelace area of L is the sum of the
       triangles' signed areas, the winding number of L about any point along any ray is the sum of the triangles'
       winding numbers = the sum of sign(T) * [q strictly inside T] for generic q;
-    - (Thm B, the reduction) IF every returned triangle has the orientation of e1 x e2 (a HYPOTHESIS: it is what the
-      property calls "has the polygon's normal orientation"; [C01_positive_normals_suffice] states it on the stored
-      normals) THEN the winding number of L about q is the NUMBER of triangles that contain q; hence, for a valid input
-      (winding number of the merged outline in {0, 1} off the outline -- the Jordan hypothesis, on the input): no
-      triangle covers a point outside the outline or in a hole, no two triangles overlap, every interior point is
-      covered, and the absolute triangle areas sum to the polygon's area: the tiling statement.
-    - conversely ([C01_negative_ear_breaks_count]) one clockwise ear breaks the count: a point outside the polygon is
-      covered by two triangles.
+    - (the ear test, fix 4bb2ed8 of the crate; every number instance) every clipped ear -- every returned triangle --
+      passed [ear_convex] (((v1 - v0) x (v2 - v1)) . normal > 0), is non-collinear, its chord was a diagonal of the loop
+      at that moment and no other vertex of that loop lies in it ([C01_ears_checked], [C01_ears_convex]); over the reals,
+      when the polygon's normal is a positive multiple of e1 x e2, every returned triangle is counter-clockwise in the
+      plane coordinates ([C01_ears_positive]): "has the polygon's normal orientation" is PROVED;
+    - (Thm B, the reduction) the winding number of L about q is then the NUMBER of triangles that contain q
+      ([C01_tiling_count_proved]); hence, for a valid input (winding number of the merged outline in {0, 1} off the
+      outline -- the Jordan hypothesis, on the input): no triangle covers a point outside the outline or in a hole, no
+      two triangles overlap, every interior point is covered ([C01_tile_exactly_proved]), and the absolute triangle
+      areas sum to the polygon's area ([C01_area_sum_proved]): the tiling statement.  The conditional forms (orientation
+      as a hypothesis on the projected triangles or on the stored normals, any frame) are kept;
+    - ([C01_negative_ear_breaks_count], pure geometry) the reduction does need the orientation: one clockwise ear breaks
+      the count, a point outside the polygon is covered by two triangles.
 
     NOT proved (and why):
-    - "is_diagonal implies a counter-clockwise ear": FALSE for the faithful model and the crate, see
-      [C01_orientation_refuted] in Properties/C01_mesh.v (known finding C01:orientation:holes).  The orientation of the
-      returned triangles is therefore a hypothesis of the reduction; the exact-rational oracle checks it on every run;
     - the Jordan property of the merged outline (winding numbers 0 or 1) is a hypothesis on the input;
-    - runs in which a periodic [sanitize] drops a vertex ([C01_ntriangles_eq_refuted]) are excluded from the tiling
+    - runs in which a periodic [sanitize] drops a vertex ([C01_sanitize_can_change]) are excluded from the tiling
       statement by [stable_run]: the dropped vertex is collinear only up to the code's tolerance, the area identity
       then holds up to that tolerance only (finding C01:area-sum:collinear-tolerance).  For such runs only
       [C01_clip_run_general] and [C01_identities_general] (identities with an explicit defect term per sanitize call)
       are proved; no bound on the defect terms is proved;
     - part B is about the exact tier ([K = R]); the floating-point evaluation of the predicates is not covered (part A
       does hold for the floats, being combinatorial);
-    - the real instance cannot be executed, so [stable_run] is witnessed on the binary64 instance (the Example),
-      whose outline and ears, having small integer coordinates, are then shown to meet every hypothesis of the
-      reduction over the reals. *)
+    - the real instance cannot be executed, so [stable_run] is witnessed on the binary64 instance (the two Examples:
+      a cross-shaped dodecagon, and the unit square with a triangular hole), whose outlines and ears are then shown to
+      meet every hypothesis of the reduction over the reals. *)
 From Coq Require Import ZArith Reals List Floats.
 From G3 Require Import Model.Num Model.NumF Model.Base Model.Vec Model.Segment Model.Triangle Model.Loop Model.Polygon Model.Triangulation
   Theory.RInst Theory.LoopGeom Proofs.C05_pointtest Proofs.C01_tiling.
+From G3 Require Proofs.Mesh_witness.
 From G3 Require Theory.Cyclic Theory.Winding Theory.Shoelace.
 Import ListNotations.
 
@@ -103,6 +106,41 @@ Theorem C01_triangle_normals : forall (K : Type) (NK : Num K) (P : Poly K) (M : 
   from_polygon P = Ok M ->
   Forall (fun t => tnormal (tp_tri t) = tri_normal_of (ta (tp_tri t)) (tb (tp_tri t)) (tc (tp_tri t))) (tris M).
 Proof. exact @from_polygon_normals. Qed.
+
+(** ** the ear test (fix 4bb2ed8): what every clipped ear has passed, on every number instance *)
+Theorem C01_def_ear_ok : forall (K : Type) (NK : Num K) (P : Poly K) (l : list (V3 K)) (v0 v1 v2 : V3 K),
+  ear_ok P l (v0, v1, v2) <->
+  (is_collinear v0 v1 v2 = Ok false /\
+   (exists Lp : Loop K, verts Lp = l /\ loop_is_diagonal Lp (seg_new v0 v2) = Ok true) /\
+   ear_convex P v0 v1 v2 = true /\
+   (exists ear : Tri K, tri_new v0 v1 v2 = Ok ear /\ ear_blocked ear v0 v1 v2 l = false)).
+Proof. intros. apply iff_refl. Qed.
+(** every ear of the trace of a successful run (stable or not) passed the four tests, for the loop at that moment *)
+Theorem C01_ears_checked : forall (K : Type) (NK : Num K) (P : Poly K) (M : Mesh K) (tr : Trace),
+  from_polygon_tr P = Ok (M, tr) -> Forall (fun e => exists l : list (V3 K), ear_ok P l e) (fst tr).
+Proof. exact @from_polygon_ears_checked. Qed.
+(** ... in the order of the run: ear steps carrying [ear_ok (loop at that moment) ear], and recorded sanitize replacements *)
+Theorem C01_clip_run_checked : forall (K : Type) (NK : Num K) (P : Poly K) (M : Mesh K) (tr : Trace),
+  from_polygon_tr P = Ok (M, tr) ->
+  exists Lm : Loop K, poly_get_closed_loop P = Ok Lm /\ snd (loop_close Lm) = Ok tt /\
+    clip_runP (ear_ok P) (verts (fst (loop_close Lm))) (fst tr) (snd tr) /\
+    map (fun t => (ta (tp_tri t), tb (tp_tri t), tc (tp_tri t))) (tris M) = fst tr.
+Proof. exact @from_polygon_clip_runP. Qed.
+(** every returned triangle is convex for the polygon's normal *)
+Theorem C01_ears_convex : forall (K : Type) (NK : Num K) (P : Poly K) (M : Mesh K),
+  from_polygon P = Ok M ->
+  Forall (fun t => ear_convex P (ta (tp_tri t)) (tb (tp_tri t)) (tc (tp_tri t)) = true) (tris M).
+Proof. exact @from_polygon_ears_convex. Qed.
+(** what [ear_blocked] = false says: every vertex of the loop is a corner (for Point3D::compare) or Outside the triangle *)
+Theorem C01_ear_blocked_false : forall (K : Type) (NK : Num K) (ear : Tri K) (v0 v1 v2 : V3 K) (l : list (V3 K)),
+  ear_blocked ear v0 v1 v2 l = false <->
+  forall p, In p l -> (vcompare p v0 || vcompare p v1 || vcompare p v2)%bool = true \/ tri_test_point ear p = Outside.
+Proof. exact @ear_blocked_false. Qed.
+(** ... and over the reals Outside means: one of the barycentric coordinates the code computes is below -100 EPSILON *)
+Theorem C01_tri_test_point_outside : forall (t : Tri R) (p : V3 R),
+  tri_test_point t p = Outside <->
+  (fst (fst (tri_bary t p)) < - ctiny \/ snd (fst (tri_bary t p)) < - ctiny \/ snd (tri_bary t p) < - ctiny)%R.
+Proof. exact tri_test_point_outside. Qed.
 
 (** ** (B) the reals: identities, for any frame *)
 (** plane coordinates: doubled signed area of a projected triangle = normal component of its cross product;
@@ -226,11 +264,54 @@ Theorem C01_area_positive : forall (o e1 e2 : V3 R) (P : Poly R) (M : Mesh R) (L
   (forall a b c, In (a, b, c) (proj_tris o e1 e2 M) -> (0 < Winding.orient a b c)%R) ->
   1 <= length (tris M) -> (0 < Shoelace.area2 (proj_outline o e1 e2 L))%R.
 Proof. exact ears_area_positive. Qed.
-(** the orientation hypothesis on the stored normals: "every returned triangle has the polygon's normal orientation" *)
+(** the orientation hypothesis stated on the stored normals (conditional form, any frame) *)
 Theorem C01_positive_normals_suffice : forall (o e1 e2 : V3 R) (P : Poly R) (M : Mesh R),
   from_polygon P = Ok M -> (forall t, In t (tris M) -> (0 < vdot (vcross e1 e2) (tnormal (tp_tri t)))%R) ->
   forall a b c, In (a, b, c) (proj_tris o e1 e2 M) -> (0 < Winding.orient a b c)%R.
 Proof. exact positive_normals_positive_ears. Qed.
+(** ** the orientation is PROVED when the polygon's normal is a positive multiple of the frame normal *)
+Theorem C01_def_frame_normal : forall (e1 e2 : V3 R) (P : Poly R),
+  frame_normal e1 e2 P <-> exists k : R, (0 < k)%R /\ pnormal P = vscale (vcross e1 e2) k.
+Proof. intros. apply iff_refl. Qed.
+Theorem C01_frame_normal_eq : forall (e1 e2 : V3 R) (P : Poly R), pnormal P = vcross e1 e2 -> frame_normal e1 e2 P.
+Proof. exact frame_normal_eq. Qed.
+(** [ear_convex] is 0 < orient of the projected ear *)
+Theorem C01_ear_convex_orient : forall (o e1 e2 : V3 R) (P : Poly R) (a b c : V3 R),
+  frame_normal e1 e2 P -> ear_convex P a b c = true ->
+  (0 < Winding.orient (plane2 o e1 e2 a) (plane2 o e1 e2 b) (plane2 o e1 e2 c))%R.
+Proof. exact ear_convex_orient. Qed.
+(** every returned triangle of every successful run is counter-clockwise in the plane coordinates *)
+Theorem C01_ears_positive : forall (o e1 e2 : V3 R) (P : Poly R) (M : Mesh R),
+  from_polygon P = Ok M -> frame_normal e1 e2 P ->
+  forall a b c, In (a, b, c) (proj_tris o e1 e2 M) -> (0 < Winding.orient a b c)%R.
+Proof. exact ears_positive. Qed.
+(** the reduction, the exact tiling and the area sum WITHOUT an orientation hypothesis *)
+Theorem C01_tiling_count_proved : forall (o e1 e2 : V3 R) (P : Poly R) (M : Mesh R) (L : Loop R),
+  stable_run P M -> outline_of P L -> frame_normal e1 e2 P ->
+  forall d q : Winding.P2, Winding.generic d q (proj_outline o e1 e2 L) ->
+    (forall a b c, In (a, b, c) (proj_tris o e1 e2 M) -> Winding.off_segs a b c q) ->
+    Winding.wn d (proj_outline o e1 e2 L) q = Z.of_nat (Winding.count_inside (proj_tris o e1 e2 M) q).
+Proof. exact ears_tiling_count_proved. Qed.
+Theorem C01_tile_exactly_proved : forall (o e1 e2 : V3 R) (P : Poly R) (M : Mesh R) (L : Loop R),
+  stable_run P M -> outline_of P L -> frame_normal e1 e2 P ->
+  forall d q : Winding.P2, Winding.generic d q (proj_outline o e1 e2 L) ->
+    (forall a b c, In (a, b, c) (proj_tris o e1 e2 M) -> Winding.off_segs a b c q) ->
+    (0 <= Winding.wn d (proj_outline o e1 e2 L) q <= 1)%Z ->
+    (Winding.wn d (proj_outline o e1 e2 L) q = 1%Z <-> exists a b c, In (a, b, c) (proj_tris o e1 e2 M) /\ Winding.inside_tri a b c q) /\
+    Winding.count_inside (proj_tris o e1 e2 M) q = (if Z.eqb (Winding.wn d (proj_outline o e1 e2 L) q) 1 then 1 else 0) /\
+    (forall (l1 l2 l3 : list (Winding.P2 * Winding.P2 * Winding.P2)) (a b c a' b' c' : Winding.P2),
+       proj_tris o e1 e2 M = l1 ++ (a, b, c) :: l2 ++ (a', b', c') :: l3 ->
+       Winding.inside_tri a b c q -> Winding.inside_tri a' b' c' q -> False).
+Proof. exact ears_tile_exactly_proved. Qed.
+Theorem C01_area_sum_proved : forall (o e1 e2 : V3 R) (P : Poly R) (M : Mesh R) (L : Loop R),
+  stable_run P M -> outline_of P L -> frame_normal e1 e2 P ->
+  Shoelace.area2 (proj_outline o e1 e2 L) = Cyclic.tsum 0%R Rplus (fun a b c => Rabs (Shoelace.area2 [a; b; c])) (proj_tris o e1 e2 M).
+Proof. exact ears_area_sum_proved. Qed.
+Theorem C01_area_positive_proved : forall (o e1 e2 : V3 R) (P : Poly R) (M : Mesh R) (L : Loop R),
+  stable_run P M -> outline_of P L -> frame_normal e1 e2 P ->
+  1 <= length (tris M) -> (0 < Shoelace.area2 (proj_outline o e1 e2 L))%R.
+Proof. exact ears_area_positive_proved. Qed.
+
 (** the reduction in the theory library's own form ([Winding.tiling_of_positive_ears], point off the edge LINES) *)
 Theorem C01_tiling_count_via_theory : forall (L : list Winding.P2) (Ts : list (Winding.P2 * Winding.P2 * Winding.P2)) (d q : Winding.P2),
   ear_decomp2 L Ts -> 3 <= length L -> Winding.generic d q L ->
@@ -239,7 +320,7 @@ Theorem C01_tiling_count_via_theory : forall (L : list Winding.P2) (Ts : list (W
     Winding.wn d L q = Z.of_nat (Winding.count_inside Ts' q) /\ Winding.count_inside Ts' q = Winding.count_inside Ts q.
 Proof. exact ed2_count_via_theory. Qed.
 
-(** ** the orientation hypothesis cannot be dropped: with one clockwise ear a point outside is covered twice *)
+(** ** the reduction needs the orientation (pure geometry): with one clockwise ear a point outside is covered twice *)
 Theorem C01_negative_ear_breaks_count :
   exists (L : list Winding.P2) (Ts : list (Winding.P2 * Winding.P2 * Winding.P2)) (d q : Winding.P2),
     ear_decomp2 L Ts /\ Winding.generic d q L /\ (forall a b c, In (a, b, c) Ts -> Winding.off_lines a b c q) /\
@@ -261,3 +342,35 @@ Example C01_tiling_nonvacuous :
    (forall a b c, In (a, b, c) Ts -> (0 < Winding.orient a b c)%R /\ Winding.off_segs a b c ex_q) /\
    Winding.wn ex_d L2 ex_q = 1%Z /\ Winding.count_inside Ts ex_q = 1 /\ Shoelace.area2 L2 = 5%R).
 Proof. split; [exact ex_run | exact ex_hypotheses]. Qed.
+
+(** ** non-vacuity with a HOLE: the unit square with the triangular hole (0.3,0.3) (0.45,0.6) (0.6,0.3) ([w1_poly]; before
+    fix 4bb2ed8 a reversed ear covered the hole).  Binary64 run: success, merged outline of 9 vertices (read in units of
+    1/20 they are [ex2_coords]), 7 = 9 - 2 triangles = [ex2_ears], one [sanitize] call, unchanged, every ear passes
+    [ear_convex].  Over the reals (units of 1/20): ear decomposition, every ear counter-clockwise; a point of the region
+    has winding number 1 and is covered once; a point IN THE HOLE has winding number 0 and is covered by no triangle;
+    area 382 = 400 - 18. *)
+Example C01_tiling_nonvacuous_hole :
+  (exists (M : Mesh float) (tr : Trace) (Lm : Loop float),
+     from_polygon_tr Mesh_witness.w1_poly = Ok (M, tr) /\ sanitize_unchanged tr /\ length (snd tr) = 1 /\
+     length (pinner Mesh_witness.w1_poly) = 1 /\
+     poly_get_closed_loop Mesh_witness.w1_poly = Ok Lm /\ snd (loop_close Lm) = Ok tt /\
+     map fzp20 (verts (fst (loop_close Lm))) = ex2_coords /\ map (map3 fzp20) (fst tr) = ex2_ears /\ length (tris M) = 7 /\
+     forallb (fun e => ear_convex Mesh_witness.w1_poly (fst (fst e)) (snd (fst e)) (snd e)) (fst tr) = true) /\
+  (let L2 := map zr ex2_coords in let Ts := map (map3 zr) ex2_ears in
+   ear_decomp2 L2 Ts /\ (forall a b c, In (a, b, c) Ts -> (0 < Winding.orient a b c)%R) /\
+   Winding.generic ex_d ex2_q L2 /\ (forall a b c, In (a, b, c) Ts -> Winding.off_segs a b c ex2_q) /\
+   Winding.wn ex_d L2 ex2_q = 1%Z /\ Winding.count_inside Ts ex2_q = 1 /\
+   Winding.generic ex_d ex2_qhole L2 /\ (forall a b c, In (a, b, c) Ts -> Winding.off_segs a b c ex2_qhole) /\
+   Winding.wn ex_d L2 ex2_qhole = 0%Z /\ (forall a b c, In (a, b, c) Ts -> ~ Winding.inside_tri a b c ex2_qhole) /\
+   Shoelace.area2 L2 = 382%R).
+Proof. split; [exact ex2_run | exact ex2_hypotheses]. Qed.
+
+(** ** [stable_run] is a genuine restriction: on this 16-vertex comb the 10th pass's [sanitize] drops a vertex that has become
+    collinear (the recorded vertex lists differ); the run succeeds with 13 = |L| - 3 triangles, so |triangles| = |L| - 2
+    is false in general (it is [C01_ntriangles_stable] for stable runs) *)
+Theorem C01_sanitize_can_change :
+  exists (P : Poly float) (M : Mesh float) (tr : Trace) (Lm : Loop float),
+    from_polygon_tr P = Ok (M, tr) /\ ~ sanitize_unchanged tr /\
+    poly_get_closed_loop P = Ok Lm /\ snd (loop_close Lm) = Ok tt /\
+    llen (fst (loop_close Lm)) = 16 /\ length (tris M) = 13.
+Proof. exists ex3_poly. exact ex3_sanitize_changes. Qed.
